@@ -691,6 +691,15 @@ end PSO.Raft
 
 namespace PSO.Raft
 
+theorem invE_restart {N s s' n c a} (h : InvE N s) (hs : step N s (.restart n c a) = some s') : InvE N s' := by
+  simp only [step] at hs
+  split at hs
+  · injection hs with hs; subst hs
+    refine invE_frame h rfl rfl rfl rfl ?_ ?_
+    · intro t c; exact List.Sublist.refl _
+    · exact nodeE_setNode ⟨Nat.le_refl _, fun _ => rfl, fun h => absurd h (Nat.lt_irrefl _), Or.inr rfl⟩
+  · cases hs
+
 theorem invE_init (N : Nat) : InvE N init := by
   constructor <;> simp [init, inflight]
 
@@ -711,6 +720,7 @@ theorem invE_step {N : Nat} {s s' : State} {a : Action} (h : InvE N s) (hs : ste
   | sendSnapshot n dst k => exact invE_sendSnapshot h hs
   | recvSnapshot n m => exact invE_recvSnapshot h hs
   | lose m => exact invE_lose h hs
+  | restart n c a => exact invE_restart h hs
 
 theorem invE_reachable {N : Nat} {s : State} (h : Reachable N s) : InvE N s := by
   induction h with
